@@ -1,0 +1,61 @@
+//go:build verif
+
+package code128
+
+// Add-only hooks for the /verif proof development (build tag verif).
+
+// VerifEncodingTable exposes encodingTable (107 module patterns).
+func VerifEncodingTable() [][]bool {
+	res := make([][]bool, len(encodingTable))
+	for i, p := range encodingTable {
+		res[i] = append([]bool(nil), p...)
+	}
+	return res
+}
+
+// The code set strings.
+const (
+	VerifATable     = aTable
+	VerifBTable     = bTable
+	VerifABTable    = abTable
+	VerifAOnlyTable = aOnlyTable
+)
+
+// The symbol value constants.
+const (
+	VerifStartA = startASymbol
+	VerifStartB = startBSymbol
+	VerifStartC = startCSymbol
+	VerifCodeA  = codeASymbol
+	VerifCodeB  = codeBSymbol
+	VerifCodeC  = codeCSymbol
+	VerifStop   = stopSymbol
+)
+
+// VerifStrToRunes exposes strToRunes.
+func VerifStrToRunes(content string) []rune { return strToRunes(content) }
+
+// VerifIndexList returns the symbol value list chosen by getCodeIndexList for
+// the runes of content (no length rule applied); nil when getCodeIndexList
+// returns nil.
+func VerifIndexList(content string) []byte {
+	bl := getCodeIndexList(strToRunes(content))
+	if bl == nil {
+		return nil
+	}
+	res := bl.GetBytes()
+	if res == nil {
+		res = []byte{}
+	}
+	return res
+}
+
+// VerifShouldUseCTable exposes shouldUseCTable.
+func VerifShouldUseCTable(nextRunes []rune, curEncoding byte) bool {
+	return shouldUseCTable(nextRunes, curEncoding)
+}
+
+// VerifShouldUseATable exposes shouldUseATable.
+func VerifShouldUseATable(nextRunes []rune, curEncoding byte) bool {
+	return shouldUseATable(nextRunes, curEncoding)
+}
